@@ -185,6 +185,12 @@ func init() {
 			if i.native && d.Transform() != snapshot.TransformNone {
 				return "FAIL transform-accepted-by-native-schema"
 			}
+			// create rules: before format 3 a snapshot does not carry the flags of the original
+			// DBI, so in shadow mode an application DBI must not be created from it (unless the
+			// configuration says with which flags)
+			if !i.native && snap.FormatVersion < 3 && before.dbis[d.Name()] == nil && after.dbis[d.Name()] != nil && !i.overridden[d.Name()] {
+				return fmt.Sprintf("FAIL application-dbi-created-from-a-pre-v3-snapshot dbi=%s fv=%d", d.Name(), snap.FormatVersion)
+			}
 		}
 		return "ok applied"
 	}
@@ -256,6 +262,7 @@ func init() {
 		if err != nil {
 			return "ok refused " + txnErrClass(err)
 		}
+		i.lastRet = uint64(txnID)
 		img, err := imageOf(i) // nothing else writes: this is the dumped state
 		if err != nil {
 			return "err image"
@@ -455,10 +462,18 @@ func init() {
 		}
 		now := u64(a[3])
 		w := beginWindow(now)
-		_, localChanged, lerr := i.s.LoadOnce(context.Background(), i.env, "remote", snapshot.Update{Snapshot: snap, NameInfo: snapshot.NameInfo{Kind: snapshot.KindSnapshot}}, header.TxnID(relTxn(i, a[2])))
+		retID, localChanged, lerr := i.s.LoadOnce(context.Background(), i.env, "remote", snapshot.Update{Snapshot: snap, NameInfo: snapshot.NameInfo{Kind: snapshot.KindSnapshot}}, header.TxnID(relTxn(i, a[2])))
 		w.end()
 		if lerr != nil {
 			return "ok refused"
+		}
+		if !localChanged {
+			i.lastRet = uint64(retID)
+		}
+		if uint64(retID) > uint64(lastTxnID(i.env)) {
+			// the loop would store an id no recorded transaction has as "synced up to here":
+			// the next application commit gets that id, is never noticed, and is then reverted
+			return fmt.Sprintf("FAIL LoadOnce-returned-an-id-no-recorded-transaction-has returned=%d last=%d", uint64(retID), lastTxnID(i.env))
 		}
 		after, err := imageOf(i)
 		if err != nil {
